@@ -107,7 +107,7 @@ def body_factory(tier, seed):
 
 
 EXTRA = None
-KINDS = ("skip","payload-skip","bad-req","bad-res","ok")
+KINDS = ("skip","payload-skip","bad-req","bad-res","ok","malformed-5th")
 
 
 def run(rep, tier, seed):
